@@ -401,9 +401,9 @@ lv_reset_ghosts(void)
     g_nlen = g_clen = 0;
 }
 
-/* the file, its V-layer record and one vgroup of it.  `small`: member arrays of 4 named entries */
+/* the file, its V-layer record and one vgroup of it (heap objects, group of any size) */
 static void
-lv_mk_env(int small)
+lv_mk_env(void)
 {
     lv_reset_ghosts();
     g_frec = malloc(sizeof(filerec_t));
@@ -446,27 +446,12 @@ lv_mk_env(int small)
     H4V_ASSUME(vg_new_vg == 0 || vg_new_vg == 1);
     H4V_ASSUME(vg_nattrs >= 0 && vg_nattrs <= 65535);
     H4V_ASSUME(vg_oref != 0);
-    if (small) {
-        H4V_ASSUME(vg_msize == 4 && vg_nvelt <= 2 && vg_nattrs <= 1);
-        H4V_ND_BUF(uint16, vg_tag, 4, 4); /* constant sizes: symbolic-size objects are what makes the histories expensive */
-        H4V_ND_BUF(uint16, vg_ref, 4, 4);
-        g_vg->tag = vg_tag;
-        g_vg->ref = vg_ref;
-    }
-    else {
-        LV_BUF(uint16, vg_tag, vg_msize);
-        LV_BUF(uint16, vg_ref, vg_msize);
-        g_vg->tag = vg_tag;
-        g_vg->ref = vg_ref;
-    }
-    if (small) {
-        H4V_ND_BUF(uint32, vg_al, 2, 2); /* two attribute entries (atag, aref) */
-        g_vg->alist = (vg_attr_t *)vg_al;
-    }
-    else {
-        LV_BUF(vg_attr_t, vg_alist, vg_nattrs + 1);
-        g_vg->alist = vg_alist;
-    }
+    LV_BUF(uint16, vg_tag, vg_msize);
+    LV_BUF(uint16, vg_ref, vg_msize);
+    LV_BUF(vg_attr_t, vg_alist, vg_nattrs + 1);
+    g_vg->tag     = vg_tag;
+    g_vg->ref     = vg_ref;
+    g_vg->alist   = vg_alist;
     g_vg->nvelt   = vg_nvelt;
     g_vg->msize   = vg_msize;
     g_vg->otag    = vg_otag;
@@ -490,14 +475,6 @@ lv_mk_env(int small)
     vgroup_free_list     = NULL;
     vginstance_free_list = NULL;
     /* the I/O buffer of vgp.c: absent, or some buffer of the recorded size */
-    if (small) {
-        /* histories: a buffer left by an earlier detach that is large enough for the small groups used there (the
-           re-allocation path is covered by the single-call contract); constant size keeps the byte-wise comparison cheap */
-        LV_BUF(uint8, vgb, 256);
-        Vgbuf     = vgb;
-        Vgbufsize = 256;
-        return;
-    }
     H4V_ND(uint32, vgbufsize);
     H4V_ASSUME(vgbufsize <= 800000u);
     if (vgbufsize == 0) {
@@ -574,7 +551,7 @@ lv_mk_names(void)
 void
 h_Vdetach(void)
 {
-    lv_mk_env(0);
+    lv_mk_env();
     H4V_ASSUME(g_vf_ok);
     H4V_ND(int, v_nattach);
     H4V_ND(int, id_live);
@@ -604,7 +581,7 @@ h_Vdetach(void)
 void
 h_vpackvg(void)
 {
-    lv_mk_env(0);
+    lv_mk_env();
     lv_mk_names();
     size_t need = LV_NEED(g_vg, g_nlen, g_clen);
     H4V_ND(size_t, extra);
@@ -624,7 +601,7 @@ h_vpackvg(void)
 void
 h_Vattach(void)
 {
-    lv_mk_env(0);
+    lv_mk_env();
     H4V_ND(int, id_live);
     H4V_ASSUME(id_live == 0 || id_live == 1);
     lv_attached(id_live ? 1 : 0, id_live);
@@ -655,33 +632,104 @@ h_Vattach(void)
 static uint8 lh_exp[sizeof(VGROUP) + 64];
 static int32 lh_explen;
 
-static void
-lh_env(void)
-{
-    lv_mk_env(1);
-    H4V_ASSUME(g_vf_ok && g_frec->refcount > 0);
-    H4V_ASSUME(g_vg->otag == DFTAG_VG);
-    H4V_ASSUME(g_c < sizeof(lh_exp));
-    g_vg->vgname  = NULL;
-    g_vg->vgclass = NULL;
-#ifdef LH_ATTR
-    g_vg->flags  = VG_ATTR_SET;
-    g_vg->nattrs = 1;
-#else
-    g_vg->flags  = 0;
-    g_vg->nattrs = 0;
-#endif
-    g_v->nattach  = 0;
-    g_vg->marked  = 0; /* nothing pending while nobody is attached (established by Vdetach, contract above) */
-}
-
-/* an edit as Vaddtagref / Vdeletetagref / Vsetname would make it.  The SHAPE of the edited group is fixed per run
-   (-DLH_N members, -DLH_NAME: a one-character name, -DLH_ATTR: one attribute and the version-4 flags word): with constant
-   record offsets the inlined vpackvg is cheap; symbolic offsets ran cbmc out of memory (probed).  Member tags/refs, the
-   name character, the attribute and every other field are arbitrary. */
+/* The environment of the histories lives in STATIC objects and the shape of the group is fixed per run (-DLH_N members,
+   -DLH_NAME: the one-character name "n", -DLH_ATTR: one attribute and the version-4 flags word).  Reason (probed): with heap
+   objects cbmc cannot decide `need > Vgbufsize` in Vdetach during symbolic execution, vpackvg then writes into "the old buffer
+   or a new one of symbolic size", and a single Vdetach costs 130 s / 6 GB; with static objects and constant record offsets a
+   whole history costs seconds.  Member tags/refs, the attribute, file/group refs, flags other than the attribute bit, version,
+   expansion tag/ref are arbitrary.  The re-allocation of the buffer is covered by the single-call contract (Vdetach_life). */
 #ifndef LH_N
 #define LH_N 2
 #endif
+static filerec_t    lh_frec;
+static vfile_t      lh_vf;
+static VGROUP       lh_vg;
+static vginstance_t lh_v;
+static uint16       lh_tag[4], lh_ref[4];
+static vg_attr_t    lh_alist[2];
+static uint8        lh_vgbuf[256];
+static char         lh_name[2];
+
+static void
+lh_env(void)
+{
+    lv_reset_ghosts();
+    H4V_ASSUME(g_c < sizeof(lh_exp));
+    memset(&lh_frec, 0, sizeof(lh_frec));
+    H4V_ND(int, f_writable);
+    lh_frec.access   = f_writable ? DFACC_RDWR : DFACC_READ;
+    lh_frec.refcount = 1;
+    g_frec           = &lh_frec;
+
+    vtree = (TBBT_TREE *)&g_dummy_vtree;
+    memset(&lh_vf, 0, sizeof(lh_vf));
+    H4V_ND(int32, vf_vgtabn);
+    H4V_ASSUME(vf_vgtabn >= 1 && vf_vgtabn < 65535);
+    lh_vf.f      = L_FID;
+    lh_vf.vgtabn = vf_vgtabn;
+    lh_vf.vgtree = (TBBT_TREE *)&g_dummy_vgtree;
+    lh_vf.access = 1;
+    g_vf         = &lh_vf;
+    g_vfp        = g_vf;
+    g_vf_ok      = 1;
+
+    memset(&lh_vg, 0, sizeof(lh_vg));
+    H4V_ND(uint16, vg_nvelt);
+    H4V_ND(uint16, vg_oref);
+    H4V_ND(int, vg_new_vg);
+    H4V_ND(uint32, vg_flags);
+    H4V_ND(int16, vg_version);
+    H4V_ND(uint16, vg_extag);
+    H4V_ND(uint16, vg_exref);
+    H4V_ND(uint16, m_tag0);
+    H4V_ND(uint16, m_ref0);
+    H4V_ND(uint16, m_tag1);
+    H4V_ND(uint16, m_ref1);
+    H4V_ND(uint16, a_tag0);
+    H4V_ND(uint16, a_ref0);
+    H4V_ASSUME(vg_nvelt <= 2 && vg_oref != 0);
+    lh_tag[0] = m_tag0; lh_ref[0] = m_ref0; lh_tag[1] = m_tag1; lh_ref[1] = m_ref1;
+    lh_tag[2] = lh_tag[3] = lh_ref[2] = lh_ref[3] = 0;
+    lh_alist[0].atag = a_tag0; lh_alist[0].aref = a_ref0;
+    lh_alist[1].atag = lh_alist[1].aref = 0;
+    lh_vg.tag     = lh_tag;
+    lh_vg.ref     = lh_ref;
+    lh_vg.alist   = lh_alist;
+    lh_vg.nvelt   = vg_nvelt;
+    lh_vg.msize   = 4;
+    lh_vg.otag    = DFTAG_VG;
+    lh_vg.oref    = vg_oref;
+    lh_vg.f       = L_FID;
+    lh_vg.access  = 'r';
+    lh_vg.new_vg  = 0; /* it is in the file */
+    lh_vg.version = vg_version;
+    lh_vg.extag   = vg_extag;
+    lh_vg.exref   = vg_exref;
+#ifdef LH_ATTR
+    lh_vg.flags  = vg_flags | VG_ATTR_SET;
+    lh_vg.nattrs = 1;
+#else
+    lh_vg.flags  = 0;
+    lh_vg.nattrs = 0;
+#endif
+    lh_vg.marked = 0; /* nothing pending while nobody is attached (established by Vdetach, contract above) */
+    g_vg         = &lh_vg;
+
+    memset(&lh_v, 0, sizeof(lh_v));
+    lh_v.key     = (int32)vg_oref;
+    lh_v.ref     = (unsigned)vg_oref;
+    lh_v.vg      = g_vg;
+    lh_v.nattach = 0;
+    g_v          = &lh_v;
+    g_vp         = g_v;
+
+    vgroup_free_list     = NULL;
+    vginstance_free_list = NULL;
+    Vgbuf                = lh_vgbuf; /* left by an earlier detach; large enough for the groups used here */
+    Vgbufsize            = sizeof(lh_vgbuf);
+}
+
+/* an edit as Vaddtagref / Vdeletetagref / Vsetname would make it */
 static void
 lh_edit(void)
 {
@@ -695,13 +743,9 @@ lh_edit(void)
     g_vg->tag[1] = ed_tag1;
     g_vg->ref[1] = ed_ref1;
 #ifdef LH_NAME
-    H4V_ND(char, ed_ch);
-    H4V_ASSUME(ed_ch != '\0');
-    char *nm = malloc(2);
-    H4V_ASSUME(nm != NULL);
-    nm[0]        = ed_ch;
-    nm[1]        = '\0';
-    g_vg->vgname = nm;
+    lh_name[0]   = 'n';
+    lh_name[1]   = '\0';
+    g_vg->vgname = lh_name;
 #endif
     g_vg->marked = 1;
 }
